@@ -27,6 +27,9 @@ def run(run, model):
     from . import c05, c09
     run.do(c05.pos_table, model, "C01.args-table", "C01.posonly")
     run.do(c09.dispatch_table, model, "C01.error-dispatch")
+    run.do(c05.order_identity, model, "C01.args-order", "C01.args-identity")
+    from . import twins
+    run.do(twins.helper_dispatch, model, "C01.await-dispatch", "C01.sync-reject")
     run.do(common.kind_uniform, model, "C01.kind-uniform")
     run.do(common.append_rules, model, "C01.append", which=("pre",))
     from . import c18, marker, meta
